@@ -26,6 +26,9 @@ VARIABLES tid, l, res, bad
 vars == <<tid, l, res, bad>>
 
 Near(a, b, tol) == a - b <= tol /\ b - a <= tol
+\* a displayed time u (units of 1e-4 s, four decimals) against a time t in ticks (1e-6 s): equal up to the rounding of the last
+\* displayed digit.  No multiplication: a wrongly displayed time can be large, and TLC's integers have 32 bits.
+NearShown(u, t) == LET q == t \div 100 IN u - q <= 2 /\ q - u <= 1
 
 -----------------------------------------------------------------------------
 \* a printed label  type@id+letters  against a reference [id, gen, type, res]
@@ -61,7 +64,7 @@ ArgAspects(ra, oa) ==
 \* a message as printed (or as projected from the tool's objects) against
 \* the resolved record
 MsgAspects(rec, o) ==
-  (IF "time" \in DOMAIN o THEN (IF Near(o.time * 100, rec.t, 100) THEN {} ELSE {"time"}) ELSE {})
+  (IF "time" \in DOMAIN o THEN (IF NearShown(o.time, rec.t) THEN {} ELSE {"time"}) ELSE {})
   \cup (IF "t" \in DOMAIN o THEN (IF Near(o.t, rec.t, 1) THEN {} ELSE {"time"}) ELSE {})
   \cup (IF "cname" \in DOMAIN o THEN (IF CharsOf(o.cname) = rec.shownc THEN {} ELSE {"conn"}) ELSE {})
   \cup (IF o.sent = rec.sent THEN {} ELSE {"dir"})
@@ -73,8 +76,8 @@ MsgAspects(rec, o) ==
         ELSE IF rec.destroyed.id = 0 THEN {}
         ELSE ObjAspects(rec.destroyed, o.dest, "dest")
              \cup (IF "life" \in DOMAIN o
-                   THEN (IF rec.life = NoTime THEN (IF o.life = -1 THEN {} ELSE {"life"})
-                         ELSE IF o.life # -1 /\ Near(o.life * 100, rec.life, 100) THEN {} ELSE {"life"})
+                   THEN (IF rec.life = NoTime THEN (IF o.life = -20000000 THEN {} ELSE {"life"})
+                         ELSE IF o.life # -20000000 /\ NearShown(o.life, rec.life) THEN {} ELSE {"life"})
                    ELSE {}))
 
 KindOk(e, o) ==
@@ -85,7 +88,7 @@ ItemAspects(T, e, o) ==
   CASE e.k \in {"new", "closed"} ->
          IF o.role = e.role /\ CharsOf(o.name) = ToCaps(e.ord) THEN {} ELSE {"notice"}
     [] e.k = "junk" -> IF o.text = e.text THEN {} ELSE {"junk"}
-    [] e.k = "sep"  -> IF e.gap = -1 \/ Near(o.gap * 100, e.gap, 100) THEN {} ELSE {"sep.gap"}
+    [] e.k = "sep"  -> IF e.gap = -1 \/ NearShown(o.gap, e.gap) THEN {} ELSE {"sep.gap"}
     [] e.k = "msg"  -> {"shown." \o a : a \in MsgAspects(T.hist[e.h], o)}
     [] e.k = "stopped" -> {"stopped." \o a : a \in MsgAspects(T.hist[e.h], o)}
     [] e.k = "counts" -> IF o.matched = e.matched /\ o.didnt = e.didnt /\ o.unchecked = e.unchecked
